@@ -527,6 +527,8 @@ def one_pair(chk, work, fmt, ref_text, l10n_text, verdicts, merge, case=None, co
             bad.append("obsolete-set")
         if merge and sorted(res[1][2]) != sorted(canon_key(k) for k in sets["missing"]):
             bad.append("missings-list")
+        if merge and len(set(res[1][3])) != len(res[1][3]):
+            bad.append("skipped-twice")          # an entity is handed to merge() once
         if not verdicts and plain and not any(it[0] == "junk" for it in case["ref"]):
             total = got["missing"] + got["changed"] + got["unchanged"] + got["keys"]
             if total != len({it[1] for it in case["ref"]}):
